@@ -135,7 +135,9 @@ def run(eng, ctx, with_socket=True):
             pv_ = env.get(partv, ("loop", lid, partv)) if partv else ("const", b"")
             if partv and pv_ == ("loop", lid, partv) and stable(partv) and info["pre"].get(partv) is not None:
                 pv_ = info["pre"][partv]
-            return pv_
+            from ..symeval import _ite_under
+
+            return _ite_under(pv_, conj)  # the alternatives (of a helper's result) that this exit's path condition leaves
         m = {st: env.get(st[2], ("loop", lid, st[2])) for st in subterms(part_expr) if isinstance(st, tuple) and len(st) == 3 and st[0] == "loopout" and st[1] == lid}
 
         def sub(t):
@@ -225,7 +227,9 @@ def run(eng, ctx, with_socket=True):
             nexit += 1
             path = [e for e in consumes if e.seq < st.seq and on_path(e, conj) and e.term[1] in kinds]
             incomplete = [e for e in path if any(_lit_complete(c, p, kinds[e.term[1]][0], e.term, kinds[e.term[1]][1]) == -1 for c, p in conj)]
-            pv = st.part
+            from ..symeval import _ite_under
+
+            pv = _ite_under(st.part, conj)  # an exit reached on several paths carries, on each, the alternative that path selects
             lbl = guard_text(conj)[-120:]
             if incomplete:
                 segs = cat.to_cat(pv)
